@@ -8,11 +8,18 @@
 //!   fl=<hex64,...>       float primitives on bit patterns: narrow16/narrow32/exact-int via Rust casts
 //!   w32=<hex32,...>      f32 -> f64 widening
 //!
+//! Edict canonical CBOR (echo_edict_canonical), same value syntax without floats/tags:
+//!   ev=<value>           edict enc=<hex|E> oracle=..      eb=<hex>   edict dec=<value|E> oracle=..
+//! Fixed little-endian records and frames:
+//!   rec=<id> b=<hex>     rec <ok reenc=same|hex / err> oracle=..   (ids: see rec_case)
+//!
 //! value syntax: T F N  i+<hex> i-<hex>  f<16 hex>  t[<hex>] b[<hex>]  a(v,v)  m(k:v,k:v)  g<hex>(v)
 use ciborium::value::{Integer, Value};
 use echo_verif_harness::*;
 use echo_wasm_abi::{decode_value, encode_value, CanonError};
+use echo_edict_canonical::{decode_canonical_cbor_v1, encode_canonical_cbor_v1, CanonicalValueV1};
 use half::f16;
+use warp_core::causal_wal as cw;
 
 // ------------------------------------------------------------------ value text syntax
 
@@ -613,12 +620,320 @@ fn w32(list: &str) -> String {
     format!("w32 {}", out.join(","))
 }
 
+// ------------------------------------------------------------------ Edict canonical CBOR
+
+fn to_edict(v: &Value) -> Option<CanonicalValueV1> {
+    Some(match v {
+        Value::Null => CanonicalValueV1::Null,
+        Value::Bool(b) => CanonicalValueV1::Bool(*b),
+        Value::Integer(n) => CanonicalValueV1::Integer(i128::from(*n)),
+        Value::Bytes(b) => CanonicalValueV1::Bytes(b.clone()),
+        Value::Text(t) => CanonicalValueV1::Text(t.clone()),
+        Value::Array(l) => CanonicalValueV1::Array(l.iter().map(to_edict).collect::<Option<Vec<_>>>()?),
+        Value::Map(es) => CanonicalValueV1::Map(
+            es.iter().map(|(k, w)| Some((to_edict(k)?, to_edict(w)?))).collect::<Option<Vec<_>>>()?,
+        ),
+        _ => return None,
+    })
+}
+
+fn from_edict(v: &CanonicalValueV1) -> Value {
+    match v {
+        CanonicalValueV1::Null => Value::Null,
+        CanonicalValueV1::Bool(b) => Value::Bool(*b),
+        CanonicalValueV1::Integer(n) => Value::Integer(Integer::try_from(*n).expect("edict integer in cbor range")),
+        CanonicalValueV1::Bytes(b) => Value::Bytes(b.clone()),
+        CanonicalValueV1::Text(t) => Value::Text(t.clone()),
+        CanonicalValueV1::Array(l) => Value::Array(l.iter().map(from_edict).collect()),
+        CanonicalValueV1::Map(es) => Value::Map(es.iter().map(|(k, w)| (from_edict(k), from_edict(w))).collect()),
+    }
+}
+
+fn edict_value(vs: &str) -> String {
+    let v = parse_value(vs);
+    let Some(ev) = to_edict(&v) else {
+        return "edict enc=E oracle=ok".into(); // floats / tags are outside the Edict value domain
+    };
+    let mut oracle: Vec<String> = Vec::new();
+    let enc = encode_canonical_cbor_v1(&ev);
+    if enc != encode_canonical_cbor_v1(&ev) {
+        oracle.push("edict-encode-nondeterministic".into());
+    }
+    if let Some(rv) = to_edict(&reversed_maps(&v)) {
+        if encode_canonical_cbor_v1(&rv) != enc {
+            oracle.push("edict-encode-depends-on-map-entry-order".into());
+        }
+    }
+    match enc {
+        Err(_) => {
+            if !has_dup_keys(&v) {
+                oracle.push("edict-encode-rejects-valid-value".into());
+            }
+            format!("edict enc=E oracle={}", fin(&oracle))
+        }
+        Ok(bytes) => {
+            match decode_canonical_cbor_v1(&bytes) {
+                Ok(d) => {
+                    if !sem_eq(&v, &from_edict(&d)) {
+                        oracle.push("edict-rt-value-changed".into());
+                    }
+                    if encode_canonical_cbor_v1(&d).ok().as_deref() != Some(&bytes[..]) {
+                        oracle.push("edict-rt-reencode-differs".into());
+                    }
+                }
+                Err(_) => oracle.push("edict-rt-decode-rejects-own-encoding".into()),
+            }
+            format!("edict enc={} oracle={}", tohex(&bytes), fin(&oracle))
+        }
+    }
+}
+
+fn edict_bytes(b: &[u8]) -> String {
+    match decode_canonical_cbor_v1(b) {
+        Err(_) => "edict dec=E oracle=ok".into(),
+        Ok(v) => {
+            let mut oracle: Vec<String> = Vec::new();
+            if encode_canonical_cbor_v1(&v).ok().as_deref() != Some(b) {
+                oracle.push("edict-accepted-noncanonical".into());
+            }
+            format!("edict dec={} oracle={}", shows(&from_edict(&v)), fin(&oracle))
+        }
+    }
+}
+
+// ------------------------------------------------------------------ fixed little-endian records
+
+fn rec_line(name: &str, input: &[u8], re: Option<Vec<u8>>, rt_ok: bool, allow_diff: bool) -> String {
+    let mut oracle: Vec<String> = Vec::new();
+    if !rt_ok {
+        oracle.push(format!("rec-roundtrip:{name}"));
+    }
+    let r = match re {
+        None => "E".to_string(),
+        Some(re) => {
+            if re == input {
+                "same".into()
+            } else {
+                if !allow_diff {
+                    oracle.push(format!("rec-accepted-noncanonical:{name}"));
+                }
+                tohex(&re)
+            }
+        }
+    };
+    format!("rec ok reenc={} oracle={}", r, fin(&oracle))
+}
+
+fn rec_case(id: u32, b: &[u8]) -> String {
+    macro_rules! plain {
+        ($T:ty, $name:expr) => {{
+            match <$T>::from_payload_bytes(b) {
+                Err(_) => "rec err oracle=ok".to_string(),
+                Ok(t) => {
+                    let re = t.to_payload_bytes();
+                    let rt = <$T>::from_payload_bytes(&re).map(|t2| t2 == t).unwrap_or(false)
+                        && t.to_payload_bytes() == re;
+                    rec_line($name, b, Some(re), rt, false)
+                }
+            }
+        }};
+    }
+    match id {
+        1 => plain!(cw::SubmissionAcceptanceRecord, "SubmissionAcceptanceRecord"),
+        2 => plain!(cw::WalSubmissionEnvelopeRecord, "WalSubmissionEnvelopeRecord"),
+        3 => plain!(cw::RetainedMaterialRecord, "RetainedMaterialRecord"),
+        4 => plain!(cw::ReadingRefRecord, "ReadingRefRecord"),
+        5 => plain!(cw::CheckpointRecord, "CheckpointRecord"),
+        6 => plain!(cw::CheckpointPublicationRecord, "CheckpointPublicationRecord"),
+        7 => plain!(cw::MaterializationIntentRecord, "MaterializationIntentRecord"),
+        8 => plain!(cw::MaterializationObservationRecord, "MaterializationObservationRecord"),
+        9 => plain!(cw::StrandDropRecord, "StrandDropRecord"),
+        10 => plain!(cw::TopologyBraidEventRecord, "TopologyBraidEventRecord"),
+        11 => plain!(cw::BraidShellRetentionRecord, "BraidShellRetentionRecord"),
+        12 => plain!(cw::SuffixImportRecord, "SuffixImportRecord"),
+        13 => plain!(cw::TickReceiptRecord, "TickReceiptRecord"),
+        14 => plain!(cw::StrandForkRecord, "StrandForkRecord"),
+        15 => match echo_wasm_abi::unpack_intent_v1(b) {
+            Err(_) => "rec err oracle=ok".to_string(),
+            Ok((op, vars)) => match echo_wasm_abi::pack_intent_v1(op, vars) {
+                Ok(re) => {
+                    let rt = echo_wasm_abi::unpack_intent_v1(&re) == Ok((op, vars));
+                    rec_line("EintEnvelope", b, Some(re), rt, false)
+                }
+                // documented: the two reserved op ids are packed only by the dedicated control /
+                // import-suffix packers; the generic packer refuses them
+                Err(echo_wasm_abi::EnvelopeError::ReservedOpId) if op >= u32::MAX - 1 => {
+                    "rec ok reenc=same oracle=ok".to_string()
+                }
+                Err(_) => rec_line("EintEnvelope", b, None, false, false),
+            },
+        },
+        16 => plain!(cw::WalReceiptCorrelationRecord, "WalReceiptCorrelationRecord"),
+        17 => match warp_core::IngressEnvelope::from_retained_bytes(b) {
+            Err(_) => "rec err oracle=ok".to_string(),
+            Ok(e) => {
+                let re = e.to_retained_bytes_v2();
+                let rt = warp_core::IngressEnvelope::from_retained_bytes(&re).map(|e2| e2 == e).unwrap_or(false)
+                    && e.to_retained_bytes_v2() == re;
+                // documented legacy upgrade: a parentless v1 envelope ("EINGR001") is accepted and
+                // re-encodes as v2 ("EINGR002"): compare modulo the version byte of the magic
+                let mut cmp = b.to_vec();
+                if cmp.len() >= 8 && &cmp[..8] == b"EINGR001" {
+                    cmp[7] = b'2';
+                }
+                let line = rec_line("IngressEnvelopeRetained", &cmp, Some(re), rt, false);
+                line
+            }
+        },
+        18 => match cw::WalRuntimeStateDeltaRecord::from_payload_bytes(b) {
+            Err(_) => "rec err oracle=ok".to_string(),
+            Ok(t) => match t.to_payload_bytes() {
+                Ok(re) => {
+                    let rt = cw::WalRuntimeStateDeltaRecord::from_payload_bytes(&re).map(|t2| t2 == t).unwrap_or(false);
+                    rec_line("WalRuntimeStateDeltaRecord", b, Some(re), rt, false)
+                }
+                Err(_) => rec_line("WalRuntimeStateDeltaRecord", b, None, false, false),
+            },
+        },
+        // frames: round trip and writer determinism only (the property scopes them so; decoders
+        // ignore reserved header bytes)
+        19 => match warp_core::materialization::decode_frames(b) {
+            None => "rec err oracle=ok".to_string(),
+            Some(frames) => {
+                let re = warp_core::materialization::encode_frames(&frames);
+                let rt = warp_core::materialization::decode_frames(&re).as_ref() == Some(&frames)
+                    && warp_core::materialization::encode_frames(&frames) == re;
+                rec_line("MbusFramesV1", b, Some(re), rt, true)
+            }
+        },
+        20 => match warp_core::materialization::decode_v2_packets(b) {
+            Err(_) => "rec err oracle=ok".to_string(),
+            Ok(packets) => {
+                let mut re = Vec::new();
+                let mut ok = true;
+                for p in &packets {
+                    match warp_core::materialization::encode_v2_packet(&p.header, &p.entries) {
+                        Ok(x) => re.extend_from_slice(&x),
+                        Err(_) => ok = false,
+                    }
+                }
+                let rt = ok && warp_core::materialization::decode_v2_packets(&re).ok().as_ref() == Some(&packets);
+                rec_line("MbusPacketsV2", b, Some(re), rt, true)
+            }
+        },
+        21 => {
+            // ELOG: header followed by frames until clean EOF
+            let mut cur = std::io::Cursor::new(b);
+            match echo_wasm_abi::read_elog_header(&mut cur) {
+                Err(_) => "rec err oracle=ok".to_string(),
+                Ok(h) => {
+                    let mut frames = Vec::new();
+                    loop {
+                        match echo_wasm_abi::read_elog_frame(&mut cur) {
+                            Ok(Some(f)) => frames.push(f),
+                            Ok(None) => break,
+                            Err(_) => return "rec err oracle=ok".to_string(),
+                        }
+                    }
+                    let mut re = Vec::new();
+                    let mut ok = echo_wasm_abi::write_elog_header(&mut re, &h).is_ok();
+                    for f in &frames {
+                        ok &= echo_wasm_abi::write_elog_frame(&mut re, f).is_ok();
+                    }
+                    let mut c2 = std::io::Cursor::new(&re[..]);
+                    let mut rt = ok && echo_wasm_abi::read_elog_header(&mut c2).ok().as_ref() == Some(&h);
+                    for f in &frames {
+                        rt &= matches!(echo_wasm_abi::read_elog_frame(&mut c2), Ok(Some(ref g)) if g == f);
+                    }
+                    // a truncated trailing length prefix (1-3 bytes) is read as a clean end of log
+                    rec_line("EintLog", b, Some(re), rt, true)
+                }
+            }
+        }
+        _ => "rec unknown".to_string(),
+    }
+}
+
+/// A valid WalRuntimeStateDeltaRecord payload built through the public constructors (empty patch,
+/// empty receipt), used as a seed for byte-level mutation.
+fn gen_state_delta(seed: u64) -> String {
+    use warp_core::{
+        compute_commit_hash_v2, GlobalTick, HashTriplet, HeadId, ProvenanceEntry, TickCommitStatus, TickReceipt, TxId,
+        WarpTickPatchV1, WorldlineId, WorldlineTick, WorldlineTickHeaderV1, WorldlineTickPatchV1, WriterHeadKey,
+    };
+    let mut rng = Rng(seed);
+    let mut h = || {
+        let mut x = [0u8; 32];
+        for b in x.iter_mut() {
+            *b = rng.next() as u8;
+        }
+        x
+    };
+    let (w, head, rule_pack, state_root, plan, rewrites, warp) = (h(), h(), h(), h(), h(), h(), h());
+    let t = seed % 1000;
+    let g = seed % 77 + 1;
+    let policy = (seed % 5) as u32;
+    let receipt = match TickReceipt::try_from_retained_parts(TxId::from_raw(t + 1), vec![], vec![]) {
+        Ok(r) => r,
+        Err(_) => return "gen E".into(),
+    };
+    let pd = WarpTickPatchV1::new(policy, rule_pack, TickCommitStatus::Committed, vec![], vec![], vec![]).digest();
+    let patch = WorldlineTickPatchV1 {
+        header: WorldlineTickHeaderV1 {
+            commit_global_tick: GlobalTick::from_raw(g),
+            policy_id: policy,
+            rule_pack_id: rule_pack,
+            plan_digest: plan,
+            decision_digest: receipt.digest(),
+            rewrites_digest: rewrites,
+        },
+        warp_id: warp_core::WarpId(warp),
+        ops: vec![],
+        in_slots: vec![],
+        out_slots: vec![],
+        patch_digest: pd,
+    };
+    let expected = HashTriplet {
+        state_root,
+        patch_digest: pd,
+        commit_hash: compute_commit_hash_v2(&state_root, &[], &pd, policy),
+    };
+    let wid = WorldlineId::from_bytes(w);
+    let entry = ProvenanceEntry::local_commit(
+        wid,
+        WorldlineTick::from_raw(t),
+        GlobalTick::from_raw(g),
+        WriterHeadKey { worldline_id: wid, head_id: HeadId::from_bytes(head) },
+        vec![],
+        expected,
+        patch,
+        vec![],
+        vec![],
+    )
+    .with_tick_receipt(receipt.clone());
+    match cw::WalRuntimeStateDeltaRecord::from_provenance_entry(receipt.digest(), None, entry) {
+        Ok(r) => match r.to_payload_bytes() {
+            Ok(b) => format!("gen {}", hex::encode(b)),
+            Err(_) => "gen E".into(),
+        },
+        Err(_) => "gen E".into(),
+    }
+}
+
 fn main() {
     for line in read_cases() {
         let m = kv(&line);
         let res = catch(std::panic::AssertUnwindSafe(|| {
             if let Some(v) = m.get("v") {
                 abi_value(v)
+            } else if m.get("gen").map(String::as_str) == Some("18") {
+                gen_state_delta(m.get("seed").and_then(|x| x.parse().ok()).unwrap_or(1))
+            } else if let Some(id) = m.get("rec") {
+                rec_case(id.parse().unwrap(), &unhex(m.get("b").map(String::as_str).unwrap_or("-")))
+            } else if let Some(v) = m.get("ev") {
+                edict_value(v)
+            } else if let Some(b) = m.get("eb") {
+                edict_bytes(&unhex(b))
             } else if let Some(b) = m.get("b") {
                 abi_bytes(&unhex(b))
             } else if let Some(n) = m.get("exh") {
